@@ -19,6 +19,9 @@ PROCEED = object()
 HOOKED_SIGNATURES = {}       # spec -> parameter names of every function whose call was answered by a contract hook (per process, reset per task)
 
 
+# list-valued fields that are never empty in a tree CPython accepts (ast.c validators) - assumed as a type invariant of every node
+NONEMPTY_LIST_FIELDS = ('targets', 'names')
+
 class SymConst(object):
     """Symbolic `Constant.value`: a python constant of unknown type and value.
 
@@ -435,6 +438,10 @@ class Interp(object):
             ld.items = {}
             ld.symlen = z3.Int('len_' + base)
             ctx.assume(ld.symlen >= 0)
+            if name in NONEMPTY_LIST_FIELDS:
+                # type invariant of the input tree (Python/ast.c validate_stmt: "empty targets on Assign / Delete", "empty names on
+                # Import / ImportFrom / Global / Nonlocal"); no function of the package builds such a node with an empty list
+                ctx.assume(ld.symlen >= 1)
             ld.origin = (obj, name, None)
             ld.extra['elem_type'] = ty
             if self.policy is not None:
